@@ -470,6 +470,11 @@ func (w *streamingResponseWriter) WriteHeader(status int) {
 	if w.wroteHeader {
 		return
 	}
+	if status >= 100 && status <= 199 {
+		// Informational (1xx) responses are interim; only the final response
+		// that follows them is streamed.
+		return
+	}
 	w.wroteHeader = true
 
 	// Initialize the response trailers.
